@@ -119,6 +119,7 @@ type loopInfo struct {
 	phiHavoc map[*ssa.Phi]Val
 	entryMemForOld *MemState
 	frameBase string
+	entryPhi  map[*ssa.Phi]Val
 }
 type iterInfo struct {
 	isMap   bool
